@@ -4,7 +4,8 @@ import importlib
 # property -> list of (rule module, configs it needs in quick tier)
 PROPERTY_RULES = {
     "C02": ["r_a6", "r_e1", "r_b1"],
-    "C05": ["r_b1", "r_o3"],
+    "C03": ["r_a2", "r_a3"],
+    "C05": ["r_b1", "r_o3", "r_a2"],
     "C06": ["r_b1", "r_o3"],
     "C09": ["r_c4", "r_c1"],
     "C10": ["r_c2", "r_c1", "r_e1"],
@@ -18,6 +19,9 @@ PROPERTY_RULES = {
 LEVEL = {"C14": "proof"}
 
 CLAUSES = {
+    "C03": "on every CFG path of every vtable/drop/conversion/duplication function the handle's reference is disposed exactly once (minted exactly once "
+           "for clone); initial counts match the number of handles; consuming slots are called only on ManuallyDrop'd handles; from_owner boxes before "
+           "as_ref, calls it once, unwinds into Drop",
     "C02": "structural preconditions of the unsafe code: every safe caller establishes the stated precondition of each unsafe helper in release code; "
            "raw slices have an approved (ptr,len) shape; raw writes are bounded by the real destination length; no wrap-around feeds an extent; "
            "refcount overflow aborts",
@@ -47,6 +51,7 @@ LEVEL_NOTE = {
     "C14": "trusted: rustc type checking/trait resolution, std slice comparison and hash impls, std views (as_bytes, deref, [..]); views show the contents (C01).",
 }
 TECHNIQUE = {
+    "C03": "path-sensitive linear-token accounting over MIR (acyclic path enumeration with constant folding and tag-feasibility pruning, interprocedural event summaries)",
     "C02": "precondition extraction from debug_assert!s of unsafe helpers + dominating-guard implication at every safe call site; shape rules for raw slices/writes; arithmetic taint",
     "C13": "dominating-guard implication for unsafe-helper preconditions at safe call sites + arithmetic taint analysis",
     "C09": "path rule over MIR CFG: every entry->call path to a call on Chain.b carries an a-exhausted witness; shape rules for Take",
